@@ -346,7 +346,7 @@ static ssize_t out_write(void *c, const char *buf, size_t n) {
     }
     size_t k = n;
     if (s->max_accept && k > s->max_accept) k = s->max_accept;
-    if (s->err_at >= 0 && s->data.size() + k > (size_t) s->err_at) k = (size_t) s->err_at - s->data.size();
+    if (s->err_at >= 0 && s->data.size() + k > (size_t) s->err_at) { k = (size_t) s->err_at - s->data.size(); if (!s->err_fired) g_stats.inc("fault.stream_write_err.fired"); s->err_fired = true; }
     if (k == 0) { s->err_fired = true; errno = ENOSPC; return 0; }
     s->data.insert(s->data.end(), (const unsigned char *) buf, (const unsigned char *) buf + k);
     return (ssize_t) k;
